@@ -1049,6 +1049,11 @@ def parse_primary_expr(lexer, unary_minus=False):
             result = parse_list_literal(lexer, token)
             if lexer.peekn(1, "=", "operator"):
                 identifiers = []
+                if not isinstance(result, NodeList):
+                    raise CklSyntaxError(
+                        "Destructuring assign expected list of identifiers",
+                        token.pos,
+                    )
                 for item in result.items:
                     if not isinstance(item, NodeIdentifier):
                         raise CklSyntaxError(
